@@ -207,7 +207,7 @@ def edge_arrays(tier):
                 if key not in seen:
                     seen.add(key)
                     out.append((name, list(sub)))
-        if length >= 10:
+        if length >= (6 if tier == "thorough" else 10):
             for name, pool in POOLS12:
                 for sub in itertools.combinations(pool, length):
                     key = tuple((type(v).__name__, repr(v)) for v in sub)
